@@ -42,6 +42,8 @@ thread_local! {
   static SWEEP_MODE: Cell<SweepMode> = const { Cell::new(SweepMode::Native) };
   static INITIAL_THRESHOLD: Cell<Option<usize>> = const { Cell::new(None) };
   static COLLECTED: Cell<Option<fn(bool)>> = const { Cell::new(None) };
+  static QUIESCENT: Cell<Option<fn(&crate::Allocator)>> = const { Cell::new(None) };
+  static SWEEP_FULL: Cell<bool> = const { Cell::new(false) };
   static QUIESCENT_PENDING: Cell<bool> = const { Cell::new(false) };
   static FORCE_CACHE_MISS: Cell<bool> = const { Cell::new(false) };
   static TICKS: Cell<u64> = const { Cell::new(0) };
@@ -83,6 +85,8 @@ pub fn reset() {
   SWEEP_MODE.with(|v| v.set(SweepMode::Native));
   INITIAL_THRESHOLD.with(|v| v.set(None));
   COLLECTED.with(|v| v.set(None));
+  QUIESCENT.with(|v| v.set(None));
+  SWEEP_FULL.with(|v| v.set(false));
   QUIESCENT_PENDING.with(|v| v.set(false));
   FORCE_CACHE_MISS.with(|v| v.set(false));
   TICKS.with(|v| v.set(0));
@@ -144,11 +148,33 @@ pub fn set_collected(collected: Option<fn(bool)>) {
   COLLECTED.with(|v| v.set(collected));
 }
 
+/// Called by the allocator when it sweeps the object heap
+pub fn note_sweep(full: bool) {
+  SWEEP_FULL.with(|v| v.set(full));
+  probe(if full {
+    probes::GC_FULL
+  } else {
+    probes::GC_NURSERY
+  });
+}
+
 /// Called by the allocator when a collection has finished
-pub fn collected(full: bool) {
+pub fn collected() {
   QUIESCENT_PENDING.with(|v| v.set(true));
   if let Some(collected) = COLLECTED.with(|v| v.get()) {
-    collected(full)
+    collected(SWEEP_FULL.with(|v| v.get()))
+  }
+}
+
+/// Install a function called at the first quiescent point after a collection
+pub fn set_quiescent(quiescent: Option<fn(&crate::Allocator)>) {
+  QUIESCENT.with(|v| v.set(quiescent));
+}
+
+/// Called by the allocator at the first quiescent point after a collection
+pub fn quiescent(allocator: &crate::Allocator) {
+  if let Some(quiescent) = QUIESCENT.with(|v| v.get()) {
+    quiescent(allocator)
   }
 }
 
